@@ -4,20 +4,42 @@ from fractions import Fraction
 
 PID = "C20"
 TITLE = "Union-find and the priority queue conform to their abstract models"
-LEAN_MODULES = ["Mouette.Props.C20"]
+LEAN_MODULES = ["Mouette.Props.C20", "Mouette.Props.C20Source", "Mouette.Props.C20Size"]
 REQUIRED_THEOREMS = ["inv_init", "inv_step", "inv_run", "find_root", "uf_refines", "elts_eq_present", "counts", "nComps_counts_classes",
                      "queries_preserve_partition", "component_joined", "component_partition", "components_spec",
-                     "component_mapping_spec", "pop_ok", "pop_none_iff", "empty_correct", "drain_perm", "drain_sorted", "trace_perm"]
+                     "component_mapping_spec", "pop_ok", "pop_none_iff", "empty_correct", "drain_perm", "drain_sorted", "trace_perm",
+                     # round 3: bridges from the definitions re-extracted from the source (Generated/C20UF.lean, C20PQ.lean)
+                     "init_bridge", "contains_bridge", "len_bridge", "addStep_bridge", "findLoopBody_bridge", "findLoop_bridge",
+                     "find_bridge", "connected_bridge", "union_bridge", "roots_bridge", "component_bridge", "srcStep_bridge",
+                     "srcRun_bridge", "ctor_bridge", "ctor_is_history", "srcRunFrom_bridge",
+                     "uf_attrs_are_instance_state", "raises_bridge", "components_shape_bridge", "component_mapping_shape_bridge",
+                     "lt_is_priority_lt", "data_is_instance_state", "push_bridge", "pop_bridge", "front_bridge", "empty_bridge",
+                     # the headline theorems on the extracted definitions
+                     "uf_refines_source", "uf_refines_source_from", "counts_source", "union_total_source", "find_root_source",
+                     "find_terminates_source", "data_is_heap", "pop_ok_source", "trace_pop_model_source", "trace_perm_source",
+                     "drain_perm_source", "pq_instances_isolated", "uf_instances_isolated", "class_attribute_would_be_shared",
+                     # round 3: sizes, heights, all roots kept by find
+                     "find_preserves_every_root", "siz_root_eq_card", "card_eq_component_length", "siz_eq_component_length"]
 TRUSTED = [
     "Lean 4.33.0 kernel; axioms ⊆ {propext, Classical.choice, Quot.sound}",
-    "hand-written model Mouette/Model/UnionFind.lean, PQueue.lean tied to mouette/utils/unionfind.py, priority_queue.py by the history correspondence of this run",
-    "elements are mapped to integer ids by the harness (hash/eq of Python hashables trusted)",
-    "heapq is abstracted to 'pop returns some pending item of minimum priority'",
+    "the translator vlib/gen/c20_translate.py (Python ast -> Lean): that the state-passing Lean definitions it writes to Generated/C20UF.lean, "
+    "C20PQ.lean denote the Python statements it read (vocabulary: Model/UFSource.lean - dict as association list, out-of-range list reads "
+    "totalised, `raise` = none, `set(..)` = duplicate-free list, `while` = recursion on fuel len(_par), proved sufficient); "
+    "components()/component_mapping() are tied by their normalised statement shape only (their meaning is the hand model's, checked by the "
+    "correspondence and the oracle)",
+    "elements are mapped to integer ids by the harness (hash/eq of Python hashables trusted); priorities are floats without NaN",
+    "heapq: CPython's heappush/heappop implement the algorithm of Lib/heapq.py (append + _siftdown; pop last, replace root, bottom-up _siftup) "
+    "- modelled in Model/BinHeap.lean; the heap contract (heap invariant w.r.t. __lt__ kept, multiset kept, pop returns heap[0] <= every item) "
+    "is PROVED for that model (Lemmas/BinHeap.lean), and the model's pop order, ties included, is compared with the implementation on every history",
+    "Python object model: an attribute assigned on self in __init__ is per-instance, an attribute of the class body is shared "
+    "(Lemmas/C20SourceRun.lean `World`); dataclass(compare=False) keeps `x` out of comparisons",
 ]
-ASSUMPTIONS = ["agreement model/implementation is established on the histories explored in this run only"]
+ASSUMPTIONS = ["agreement model/implementation is established on the histories explored in this run only (the model is additionally "
+               "proved equal to the definitions extracted from the source, see *_bridge)"]
 RULE = ("random histories over ints/strings/tuples/mixed elements (adds, repeated adds, unions incl. self and absent, "
         "find/connected/component queries) and queue histories (ties, negatives, ±inf); observed after every "
-        "operation; non-trivial = distinct history with ≥1 union joining two components (uf) or ≥2 pops (pq); "
+        "operation (uf: answer, both counters, canonical partition; pq: answer incl. WHICH item a pop hands out, and `front`, compared "
+        "with the proved model of heapq); non-trivial = distinct history with ≥1 union joining two components (uf) or ≥2 pops (pq); "
         "thorough adds all histories of length ≤ 5 over 3 elements")
 
 
@@ -272,26 +294,41 @@ def _fmt_prio(w):
 
 
 def _run_pq(case):
+    """one record per operation: `<answer>;<front after the operation>`; a pop answers WHICH item came out (`id:priority`)"""
     from mouette.utils.priority_queue import PriorityQueue
     q = PriorityQueue()
     decoy = _Decoy(case)
     out = []
+    rev = {}
+
+    def item(it):
+        return f"{rev.get(it.x, '?')}:{_fmt_prio(float(it.priority))}"
+
+    def front():
+        try:
+            return item(q.front)
+        except IndexError:
+            return "-"
+        except Exception as e:  # noqa
+            return f"err:Other({type(e).__name__})"
     for o in case["ops"]:
         decoy.poke()
         if o[0] == "p":
             try:
-                q.push(_pq_elem(case, o[1]), _pq_prio(case, o[2])); out.append("-")
+                x = _pq_elem(case, o[1]); rev[x] = o[1]
+                q.push(x, _pq_prio(case, o[2])); a = "-"
             except Exception as e:  # noqa
-                out.append(f"err:Other({type(e).__name__})")
+                a = f"err:Other({type(e).__name__})"
         elif o[0] == "o":
             try:
-                it = q.pop(); out.append(_fmt_prio(float(it.priority)))
+                a = item(q.pop())
             except IndexError:
-                out.append("err:Index")
+                a = "err:Index"
             except Exception as e:  # noqa
-                out.append(f"err:Other({type(e).__name__})")
+                a = f"err:Other({type(e).__name__})"
         else:
-            out.append("1" if q.empty() else "0")
+            a = "1" if q.empty() else "0"
+        out.append(f"{a};{front()}")
     return " | ".join(out)
 
 
@@ -444,11 +481,21 @@ def oracle(case):
     return out
 
 
+def _prio_only(trace):
+    return " | ".join(";".join(f.split(":")[-1] for f in rec.split(";")) for rec in trace.split(" | "))
+
+
 def compare(case, model, impl):
-    if case["t"] == "uf" and case.get("init"):
-        # the constructor's elements are `add`s for the model; the implementation has no record for them
-        model = " | ".join(model.split(" | ")[len(case["init"]["idx"]):])
-    return None if model == impl else "model trace differs from implementation trace"
+    if case["t"] == "uf":
+        if case.get("init"):
+            # the constructor's elements are `add`s for the model; the implementation has no record for them
+            model = " | ".join(model.split(" | ")[len(case["init"]["idx"]):])
+        return None if model == impl else "model trace differs from implementation trace"
+    if model == impl: return None
+    if _prio_only(model) == _prio_only(impl):
+        return ("priorities, emptiness and errors agree, but WHICH of several equal-priority items is handed out / is at the front differs from "
+                "the heapq model of Model/BinHeap.lean (tie-breaking order is not a clause of the property; the model of heapq is no longer exact)")
+    return "model trace differs from implementation trace"
 
 
 def nontrivial(case, obs):
@@ -457,6 +504,26 @@ def nontrivial(case, obs):
         comps = [r.split(";")[2] for r in recs]
         return any(o[0] == "u" and i > 0 and comps[i] < comps[i - 1] for i, o in enumerate(case["ops"]))
     return sum(1 for o in case["ops"] if o[0] == "o") >= 2
+
+
+def search_on_break(rng, broken, mismatches):
+    """a bridge / translation site / the correspondence broke: targeted inputs for the failing-input search (oracle only).
+    Exhaustive small scope, a second instance in use in every case (shared state), constructor containers with
+    repetitions, deep trees, tie-heavy queues."""
+    import itertools
+    alpha = [["a", 0], ["a", 1], ["u", 0, 1], ["u", 1, 2], ["u", 0, 0], ["u", 2, 0], ["c", 0, 2], ["k", 1], ["f", 2], ["r"], ["m"]]
+    for L in range(1, 4):
+        for seq in itertools.product(alpha, repeat=L):
+            yield {"t": "uf", "kind": "int", "elems": [7, 8, 9], "ops": [list(o) for o in seq]}
+    for seq in itertools.product([["u", 0, 1], ["u", 2, 3], ["u", 1, 0], ["u", 3, 1], ["u", 0, 2], ["a", 4], ["u", 4, 0]], repeat=4):
+        yield {"t": "uf", "kind": "int", "elems": [3, 4, 5, 6, 7], "ops": [list(o) for o in seq] + [["r"], ["m"], ["k", 0]]}
+    for i, c in enumerate(cases(rng, "quick")):
+        if i % 2 == 0:
+            c = dict(c, decoy=("init" if (c["t"] == "uf" and i % 4 == 0) else "empty"))
+        if c["t"] == "uf" and i % 3 == 0 and not c.get("init"):
+            ne = len(c["elems"])
+            c = dict(c, init={"idx": [rng.randrange(ne) for _ in range(rng.randint(1, ne + 3))], "as": rng.choice(["list", "tuple", "iter", "keys"])})
+        yield c
 
 
 def classify(case, obs):
@@ -481,15 +548,28 @@ def shrink(case, still):
         else: i += 1
     return dict(case, ops=ops)
 
+from ..gen.c20_translate import translate  # noqa: E402
+
 MANIFEST = {
     "level_text": ("Proof. Lean 4 theorems about an executable model of UnionFind (weighted quick-union with path halving, exactly "
                    "the code's arrays and counters) and of the priority queue: representation invariant preserved by every operation "
                    "incl. the mutation inside queries, find terminates within fuel and returns a root, connected(x,y) <-> equivalence "
                    "closure of the unions so far for EVERY finite history (refinement), counts/roots/components describe that "
-                   "partition, queries preserve it; queue: every pop satisfying the abstract pop contract returns a pending minimum, "
-                   "a drained queue is a permutation of the pushes, emptiness exact - for every tie-breaking. The model is tied to "
-                   "the Python classes by a history correspondence (observed after every operation) and a direct oracle."),
-    "level_note": ("Trusted: Lean kernel + propext/Classical.choice/Quot.sound; the hand-written model (checked against the code on the "
-                   "histories of each run only); Python hash/eq of the elements; heapq abstracted to 'some pending minimum'."),
-    "technique": "Lean 4 refinement proof (invariant + EqvGen spec) over an executable model; differential history correspondence",
+                   "partition, queries preserve it (every element keeps its root), the size field of every root is the cardinality of its "
+                   "class and 2^depth <= size; queue: the heap contract is PROVED for a Lean model of heapq (sift-up/sift-down over a list), "
+                   "hence every pop returns a pending minimum, each pushed item comes out once, emptiness is exact. On every run the methods "
+                   "of unionfind.py and priority_queue.py are re-extracted with Python ast into state-passing Lean definitions "
+                   "(add, find incl. its while loop, union incl. the size comparison and link orientation, connected, component, roots, "
+                   "__init__, __contains__, __len__; PriorityItem.__lt__, push/pop/get/front/empty, where `data` lives) and BRIDGE theorems "
+                   "prove them equal to the model, so that the headline theorems hold of what the source says now (uf_refines_source, "
+                   "pop_ok_source, drain_perm_source, trace_pop_model_source, find_terminates_source, instances isolated, constructor = fold "
+                   "of add). The tie with the running code is additionally sampled by a history correspondence (observed after every "
+                   "operation, pop order on ties included) and a direct oracle, which also produce the failing input when a bridge breaks."),
+    "level_note": ("Trusted: Lean kernel + propext/Classical.choice/Quot.sound; the ast->Lean translator and its vocabulary "
+                   "(Model/UFSource.lean); Python hash/eq of the elements; 'CPython's heapq implements the algorithm of Lib/heapq.py' "
+                   "(its contract is proved for the model, its pop order is compared on every history); Python's attribute lookup rule "
+                   "(instance vs class body); components()/component_mapping() are tied by statement shape + correspondence only."),
+    "technique": ("Lean 4 refinement proof (invariant + equivalence-closure spec) over an executable model; source methods translated by "
+                  "Python ast into Lean definitions each run and proved equal to the model by bridge theorems (kernel-checked, lake build); "
+                  "proved binary-heap contract; differential history correspondence + oracle for the failing-input search"),
 }
